@@ -757,12 +757,19 @@ func awsOpCase(r *Rng, fleet bool, w io.Writer) string {
 				rec.reset()
 				if !toBound && r.chance(35) && len(g.Instances) > 0 {
 					// a removal first — AWS may reject the termination — and then a request that goes right up to the cloud maximum
-					if r.chance(70) {
-						rec.FailAt[0] = true
+					if r.chance(50) {
+						rec.FailAt[r.intn(2)] = true
 					}
-					in := g.Instances[r.intn(len(g.Instances))]
-					nd := &v1.Node{ObjectMeta: metav1.ObjectMeta{Name: fmt.Sprintf("fs%d", seq)}, Spec: v1.NodeSpec{ProviderID: providerID(in.AZ, in.ID)}}
-					deleteLine(w, ng, rec, pcfg, pg, []*v1.Node{nd}, seq)
+					// one node, or a batch of two or three (every accepted termination lowers the desired size by exactly one)
+					var batch []*v1.Node
+					for _, ix := range r.perm(len(g.Instances)) {
+						if len(batch) >= r.pickI(1, 1, 2, 3) {
+							break
+						}
+						in := g.Instances[ix]
+						batch = append(batch, &v1.Node{ObjectMeta: metav1.ObjectMeta{Name: fmt.Sprintf("fs%d-%d", seq, len(batch))}, Spec: v1.NodeSpec{ProviderID: providerID(in.AZ, in.ID)}})
+					}
+					deleteLine(w, ng, rec, pcfg, pg, batch, seq)
 					toBound = true
 					continue
 				}
